@@ -33,8 +33,8 @@ Definition dummy_input : rinput :=
   {| rp_country := JP; rp_period := 0; rp_from := 0; rp_to := 0; rp_allow := false; rp_exchanges := []; rp_holders := [];
      rp_sched := []; rp_assets := [] |}.
 Definition input_of (h : hist) : rinput := match mk_input h with Some i => i | None => dummy_input end.
-Definition report_of_input (ys pe : bool) (i : rinput) : list sheetw :=
-  match jp_report 0 ys pe i with Ok r => r | Err _ => [] end.
+Definition report_of_input (yg ys pe : bool) (i : rinput) : list sheetw :=
+  match jp_report 0 yg ys pe i with Ok r => r | Err _ => [] end.
 
 (** 2019-01-01 = day 17897, 2019-06-01 = 18048, 2020-03-01 = 18322, 2021-01-01 = 18628 *)
 (** buys in 2019 (two) and 2021, a sale in 2020: first-seen order of the years is 2019, 2021, 2020 *)
@@ -43,6 +43,13 @@ Definition unordered_input : rinput :=
 (** buys in 2019 and 2021, nothing in 2020 *)
 Definition gap_input : rinput :=
   input_of {| h_ins := [buy 3 17897; buy 4 18628]; h_outs := []; h_intras := [] |}.
+
+(** a buy, then a transfer that loses 1e-11 units at a price of 1e-8 yen: the lost amount is > 0, its yen value (1e-19) is 0 at
+    13 decimals (2019-02-03 = day 17930) *)
+Definition dust_transfer : raw_intra :=
+  {| rx_row := 9; rx_ts := day_ts 17930; rx_from_exch := 0; rx_from_holder := 0; rx_to_exch := 0; rx_to_holder := 0;
+     rx_spot := Some 1000; rx_crypto_sent := U; rx_crypto_received := U - 1 |}.
+Definition dust_input : rinput := input_of {| h_ins := [buy 3 17897]; h_outs := []; h_intras := [dust_transfer] |}.
 
 Definition sheet_named (r : list sheetw) (n : str) : option sheetw := find (fun s => str_eqb (sw_name s) n) r.
 Definition has_sheet (r : list sheetw) (n : str) : bool := existsb (fun s => str_eqb (sw_name s) n) r.
@@ -58,8 +65,8 @@ Definition nm (y : Z) : str := tax_sheet_name 0 BTC y.
     of BTC_2020 is I31; and BTC_2020 opens with a reference into BTC_2019 using the row of BTC_2021 (I31),
     whereas the closing cell of BTC_2019 is I32 *)
 Lemma refuted_unordered :
-  let r := report_of_input false false unordered_input in
-  jp_report 0 false false unordered_input = Ok r /\
+  let r := report_of_input false false false unordered_input in
+  jp_report 0 false false false unordered_input = Ok r /\
   map sw_name r = [summary_sheet_name 0 2019; summary_sheet_name 0 2021; summary_sheet_name 0 2020; nm 2019; nm 2021; nm 2020] /\
   cell r (nm 2021) 30 4 = sheet_ref (nm 2020) 73 32 /\ cell r (nm 2020) 30 8 = closing_formula 31 /\
   cell r (nm 2020) 30 4 = sheet_ref (nm 2019) 73 31 /\ cell r (nm 2019) 31 8 = closing_formula 32.
@@ -67,16 +74,16 @@ Proof. vm_compute. repeat split; reflexivity. Qed.
 
 (** F5, second half: with a gap year the opening balance of BTC_2021 refers to a sheet that does not exist *)
 Lemma refuted_gap :
-  let r := report_of_input false false gap_input in
-  jp_report 0 false false gap_input = Ok r /\
+  let r := report_of_input false false false gap_input in
+  jp_report 0 false false false gap_input = Ok r /\
   map sw_name r = [summary_sheet_name 0 2019; summary_sheet_name 0 2021; nm 2019; nm 2021] /\
   cell r (nm 2021) 30 4 = sheet_ref (nm 2020) 73 31 /\ has_sheet r (nm 2020) = false.
 Proof. vm_compute. repeat split; reflexivity. Qed.
 
 (** the same inputs with the years sorted and the previous existing year referenced *)
 Lemma repaired_unordered :
-  let r := report_of_input true true unordered_input in
-  jp_report 0 true true unordered_input = Ok r /\
+  let r := report_of_input true true true unordered_input in
+  jp_report 0 true true true unordered_input = Ok r /\
   map sw_name r = [summary_sheet_name 0 2019; summary_sheet_name 0 2020; summary_sheet_name 0 2021; nm 2019; nm 2020; nm 2021] /\
   cell r (nm 2019) 31 4 = PInt 0 /\
   cell r (nm 2020) 30 4 = sheet_ref (nm 2019) 73 32 /\ cell r (nm 2019) 31 8 = closing_formula 32 /\
@@ -84,8 +91,18 @@ Lemma repaired_unordered :
 Proof. vm_compute. repeat split; reflexivity. Qed.
 
 Lemma repaired_gap :
-  let r := report_of_input true true gap_input in
-  jp_report 0 true true gap_input = Ok r /\
+  let r := report_of_input true true true gap_input in
+  jp_report 0 true true true gap_input = Ok r /\
   map sw_name r = [summary_sheet_name 0 2019; summary_sheet_name 0 2021; nm 2019; nm 2021] /\
   cell r (nm 2021) 30 4 = sheet_ref (nm 2019) 73 31 /\ cell r (nm 2019) 30 8 = closing_formula 31.
+Proof. vm_compute. repeat split; reflexivity. Qed.
+
+(** F14: with the yen value guarded by its own 13-decimal comparison the writer hands None to the spreadsheet library and no
+    report is produced; guarded by the lost amount, the transfer gets its row (22, after the buy) with amount 1e-11 and 1e-19 yen *)
+Lemma refuted_dust_fee_crash :
+  jp_report 0 false true true dust_input = Err EValue /\
+  let r := report_of_input true true true dust_input in
+  jp_report 0 true true true dust_input = Ok r /\
+  map sw_name r = [summary_sheet_name 0 2019; nm 2019] /\
+  cell r (nm 2019) 22 6 = PNum (of_grid 1) /\ cell r (nm 2019) 22 7 = PNum (dmul (of_grid 1) (of_grid 1000)).
 Proof. vm_compute. repeat split; reflexivity. Qed.
